@@ -42,6 +42,10 @@ type CorDef[T any] struct {
 	resultCh chan T
 	doneCh   chan struct{}
 
+	// The value given to StartWithVal, handed to the first YieldRef (set before the effect goroutine starts)
+	startVal    T
+	hasStartVal bool
+
 	effect func()
 }
 
@@ -92,7 +96,9 @@ func (corSelf *CorDef[T]) StartWithVal(in T) {
 		return
 	}
 
-	corSelf.receive(nil, in)
+	// Not queued in opCh: requests already waiting there must not get ahead of it (or fill the channel up)
+	corSelf.startVal = in
+	corSelf.hasStartVal = true
 	corSelf.Start()
 }
 
@@ -118,6 +124,13 @@ func (corSelf *CorDef[T]) Start() {
 func (corSelf *CorDef[T]) YieldRef(out T) T {
 	var result T
 	if corSelf.IsDone() {
+		return result
+	}
+
+	if corSelf.hasStartVal {
+		// The first YieldRef receives the initial value (its own out has nobody to go to)
+		corSelf.hasStartVal = false
+		result = corSelf.startVal
 		return result
 	}
 
